@@ -52,7 +52,96 @@ func TestC14(t *testing.T) {
 		if rec.Mine(c + 3) {
 			replicaSetChanges(rec, c)
 		}
+		if rec.Mine(c + 5) {
+			deletionAfterLateReplica(rec, c)
+		}
 	}
+}
+
+// deletionAfterLateReplica: a dataset that wants three replicas is created on two members; node 3 joins and is given
+// the missing replicas (it acquires them after the dataset was created); once every partition group has three voters
+// the dataset is deleted: no node may still run a raft group of its partitions, and none may list it.
+func deletionAfterLateReplica(rec *mon.Recorder, c int) {
+	rng := rec.Rand("c14-late-replica", c)
+	desc := fmt.Sprintf("deletion-after-a-replica-was-added-later case=%d nodes=3", c)
+	rec.Current(desc)
+	cl := sim.New(sim.Options{Nodes: 3, Dir: os.Getenv("VERIF_SCRATCH") + fmt.Sprintf("/c14d-%d", c), TickEvery: 5 * time.Millisecond, Seed: rec.Seed() + int64(c), NoJoinBarrier: true})
+	defer cl.Close()
+	for i := 0; i < 2; i++ {
+		if err := cl.StartNode(i); err != nil {
+			rec.Inconclusive(fmt.Sprintf("%s: node %d: %v", desc, i+1, err))
+			return
+		}
+		if i == 0 {
+			cl.WaitFor(20*time.Second, func() bool { return cl.Nodes[0].ZeroLeader() != 0 })
+		}
+		if cl.WaitMembership(i+1, 20*time.Second) != nil {
+			rec.Inconclusive(desc + ": membership not reached")
+			return
+		}
+	}
+	doomedId, doomedMeta, derr := cl.CreateDataset(rng.Intn(2), 2, uint32(1+rng.Intn(3)), 3, pb.Space_Euclidean)
+	if derr != nil {
+		rec.Inconclusive(desc + ": create: " + derr.Error())
+		return
+	}
+	var parts []uuid.UUID
+	for _, p := range doomedMeta.GetPartitions() {
+		parts = append(parts, uuid.FromBytesOrNil(p.GetId()))
+	}
+	if err := cl.StartNode(2); err != nil {
+		rec.Inconclusive(desc + ": join of node 3: " + err.Error())
+		return
+	}
+	// every partition group has three voters: the allocator that added node 3 is done with the dataset
+	if cl.WaitFor(20*time.Second, func() bool {
+		for _, pid := range parts {
+			if cl.Nodes[2].PartitionRaft(doomedId, pid) == nil {
+				return false
+			}
+			voters := 0
+			for _, n := range cl.Nodes {
+				if g := n.PartitionRaft(doomedId, pid); g != nil {
+					if st := g.VerifStatus(); st.RaftState.String() == "StateLeader" {
+						voters = len(st.Progress)
+					}
+				}
+			}
+			if voters != 3 {
+				return false
+			}
+		}
+		return true
+	}) != nil {
+		rec.Inconclusive(desc + ": node 3 was not given the dataset's missing replicas within the watchdog")
+		return
+	}
+	time.Sleep(time.Duration(rng.Intn(100)) * time.Millisecond)
+	replay := map[string]interface{}{"case": c, "seed": rec.Seed(), "desc": desc}
+	var delErr error
+	if !cl.Guard(10*time.Second, func() { delErr = cl.Nodes[rng.Intn(3)].DM().Delete(context.Background(), doomedId) }) || delErr != nil {
+		rec.Inconclusive(fmt.Sprintf("%s: delete: %v", desc, delErr))
+		return
+	}
+	for _, n := range cl.Nodes {
+		n := n
+		if cl.WaitFor(10*time.Second, func() bool { return n.Dataset(doomedId) == nil }) != nil {
+			rec.Violation("catalogue:deleted-dataset-listed:after-a-replica-was-added-later", fmt.Sprintf("%s: node %d still knows dataset %s, whose deletion was acknowledged", desc, n.Id, doomedId), replay)
+			return
+		}
+		for _, pid := range parts {
+			pid := pid
+			if cl.WaitFor(10*time.Second, func() bool {
+				_, still := n.In.ZeroGroup.VerifTransport().VerifGroups()[pid]
+				return !still
+			}) != nil {
+				rec.Violation("catalogue:deleted-partition-still-served:on-a-replica-added-after-the-dataset-was-created", fmt.Sprintf("%s: node %d still runs a raft group for partition %s of dataset %s, whose deletion was acknowledged", desc, n.Id, pid, doomedId), replay)
+				return
+			}
+		}
+	}
+	rec.Count("deletions_of_datasets_with_replicas_added_later", 1)
+	rec.Case(mon.Digest(desc), true)
 }
 
 // replicaSetChanges: datasets that want more replicas than there are members
@@ -111,17 +200,6 @@ func replicaSetChanges(rec *mon.Recorder, c int) {
 			}
 		}
 		return l
-	}
-	// one more under-replicated dataset, kept out of the comparisons below: it is deleted once node 3 has been given
-	// its replicas (a replica acquired after the dataset was created must stop serving like any other)
-	doomedId, doomedMeta, derr := cl.CreateDataset(0, 2, uint32(1+rng.Intn(3)), 3, pb.Space_Euclidean)
-	if derr != nil {
-		rec.Inconclusive(desc + ": create: " + derr.Error())
-		return
-	}
-	var doomedParts []uuid.UUID
-	for _, p := range doomedMeta.GetPartitions() {
-		doomedParts = append(doomedParts, uuid.FromBytesOrNil(p.GetId()))
 	}
 	// the assignment as one node lists it and as it routes by it
 	type view struct{ listed, effective string }
@@ -258,33 +336,6 @@ func replicaSetChanges(rec *mon.Recorder, c int) {
 	}
 	rec.Count("replica_set_changes_observed", 1)
 	afterAdd := agreed
-	// the extra dataset: once node 3 runs its replicas, it is deleted
-	if cl.WaitFor(10*time.Second, func() bool {
-		for _, pid := range doomedParts {
-			if cl.Nodes[2].PartitionRaft(doomedId, pid) == nil {
-				return false
-			}
-		}
-		return true
-	}) == nil {
-		var delErr error
-		if cl.Guard(10*time.Second, func() { delErr = cl.Nodes[0].DM().Delete(context.Background(), doomedId) }) && delErr == nil {
-			steps = append(steps, "delete of the dataset whose replicas node 3 acquired after it was created")
-			for _, n := range live() {
-				for _, pid := range doomedParts {
-					pid := pid
-					if cl.WaitFor(10*time.Second, func() bool {
-						_, still := n.In.ZeroGroup.VerifTransport().VerifGroups()[pid]
-						return !still
-					}) != nil {
-						rec.Violation("catalogue:deleted-partition-still-served:on-a-replica-added-after-the-dataset-was-created", fmt.Sprintf("%s: node %d still runs a raft group for partition %s of dataset %s, whose deletion was acknowledged", desc, n.Id, pid, doomedId), replay())
-						return
-					}
-				}
-			}
-			rec.Count("deletions_of_datasets_with_replicas_added_later", 1)
-		}
-	}
 	// compaction + restart of a member: replay / snapshot restore must give the same assignment
 	victim := cl.Nodes[rng.Intn(3)]
 	compact := c%2 == 0
@@ -316,6 +367,17 @@ func replicaSetChanges(rec *mon.Recorder, c int) {
 	} else {
 		lag = nil
 	}
+	// node 1 leads the membership-and-catalogue group when node 3 goes: a leader that is removed and stopped takes
+	// the proposals forwarded to it with it, and the allocators wait for their outcome without bound (observed on
+	// the unchanged tree and outside what C14 states, see DESIGN 9.2) - the family is about the changes that are made
+	cl.WaitFor(15*time.Second, func() bool {
+		if cl.Nodes[0].ZeroLeader() == 1 {
+			return true
+		}
+		cl.Guard(2*time.Second, func() { cl.Nodes[0].In.ZeroGroup.VerifCampaign() })
+		time.Sleep(100 * time.Millisecond)
+		return cl.Nodes[0].ZeroLeader() == 1
+	})
 	var err error
 	if !cl.Guard(20*time.Second, func() { err = cl.Nodes[0].In.NodesManager.RemoveNode(3) }) || err != nil {
 		rec.Inconclusive(fmt.Sprintf("%s: removal of node 3: %v", desc, err))
